@@ -867,6 +867,15 @@ MUTANTS = [
          old="                    current_batch.flush(db, after_commit_sender, shutting_down);\n                }\n            } else {",
          new="                    current_batch.flush(db, after_commit_sender, shutting_down);\n                    break;\n                }\n            } else {",
          expect="C10.a/process_pending_commits/drains-until-nothing-is-ready"),
+    # the apply step extracted into a helper (the neutral twin N23) and then broken: the rule follows the helper
+    dict(id="C10.a-helper-lists-before-consuming", prop="C10", file=ST + "write_manager/write_behind.rs",
+         old='                let task = pending_commits.pop().unwrap();\n\n                current_batch\n                    .db_write_batch\n                    .consume_serialization_buffer(task.serialize_buffer);\n\n                // push into current batch\n                current_batch.processed_logical_batch.push(task.write_buffer);\n\n                current_batch.expected_epoch.0 += 1;\n', new="                let task = pending_commits.pop().unwrap();\n\n                Self::apply_task(current_batch, task);\n",
+         edits_extra=[("    fn process_pending_commits(", '    fn apply_task(current_batch: &mut CurrentBatch<Db>, task: WriteTask<Db>) {\n        let WriteTask { serialize_buffer, write_buffer } = task;\n        current_batch.processed_logical_batch.push(write_buffer);\n        current_batch\n            .db_write_batch\n            .consume_serialization_buffer(serialize_buffer);\n        current_batch.expected_epoch.0 += 1;\n    }\n\n    fn process_pending_commits(')],
+         expect="C10.a/process_pending_commits/consumed-before-listed-for-notification"),
+    dict(id="C10.a-helper-advances-only-for-nonempty-batches", prop="C10", file=ST + "write_manager/write_behind.rs",
+         old='                let task = pending_commits.pop().unwrap();\n\n                current_batch\n                    .db_write_batch\n                    .consume_serialization_buffer(task.serialize_buffer);\n\n                // push into current batch\n                current_batch.processed_logical_batch.push(task.write_buffer);\n\n                current_batch.expected_epoch.0 += 1;\n', new="                let task = pending_commits.pop().unwrap();\n\n                Self::apply_task(current_batch, task);\n",
+         edits_extra=[("    fn process_pending_commits(", '    fn apply_task(current_batch: &mut CurrentBatch<Db>, task: WriteTask<Db>) {\n        current_batch\n            .db_write_batch\n            .consume_serialization_buffer(task.serialize_buffer);\n        if !task.write_buffer.active {\n            return;\n        }\n        current_batch.processed_logical_batch.push(task.write_buffer);\n        current_batch.expected_epoch.0 += 1;\n    }\n\n    fn process_pending_commits(')],
+         expect="C10.a/process_pending_commits/apply-only-expected-epoch"),
     dict(id="C14.f-name-hash-skips-last-byte-of-each-block", prop="C14", file="crates/stable_type_id/src/lib.rs",
          old="            | ((bytes[start + 7] as u64) << 56)", new="",
          expect="C14.f/witness/every-name-byte-and-the-length-reach-the-id"),
